@@ -218,6 +218,9 @@ impl StateMachine<'_> {
         if !self.test_pending_line_with_diff_name() {
             return Ok(());
         }
+        // The pending header is written directly to the writer: first emit what has already
+        // been painted for the previous file, otherwise it would appear after this header.
+        self.painter.emit()?;
 
         if !self.mode_info.is_empty() {
             let format_label = |label: &str| {
